@@ -10,7 +10,7 @@ for f in sorted(glob.glob("/verif/evidence/C*.json")):
     d = json.load(open(f))
     fl = {}
     for rule, n in d["coverage"]["rules"]:
-        if rule in ("FLOOR", "ROLES"):
+        if rule in ("FLOOR", "ROLES") or n == 0:
             continue
         # 70% of what was confirmed on the reviewed tree: merging two helpers or inlining a closure (which removes a few
         # instances) is not an alarm; a rule family that collapses or matches nothing is
